@@ -1,14 +1,27 @@
 #!/bin/sh
 # run_check.sh <ID> <quick|thorough>: rebuild the explorer against /repo's current working tree, run one check.
+# (VERIF_REPO=<dir> points the whole machinery at another checkout — used only for experiments with
+#  property-breaking changes in scratch worktrees; the registered commands always use /repo.)
 set -u
-export GOFLAGS=-mod=mod GOPROXY=off GOSUMDB=off GOTOOLCHAIN=local
 ROOT=$(cd "$(dirname "$0")" && pwd)
 export VERIF_ROOT="$ROOT"
+REPO="${VERIF_REPO:-/repo}"
+export VERIF_REPO="$REPO"
+BIN="$ROOT/bin"
 mkdir -p "$ROOT/bin" "$ROOT/evidence" "$ROOT/replays"
-cp /repo/go.sum "$ROOT/mc/go.sum" 2>/dev/null
-if ! (cd "$ROOT/mc" && go build -o "$ROOT/bin/spdxmc" ./cmd/spdxmc) >"$ROOT/bin/build.log" 2>&1; then
-  echo "run_check: the explorer does not build against /repo (infrastructure failure, not a verdict):" >&2
-  cat "$ROOT/bin/build.log" >&2
+if [ "$REPO" = /repo ]; then
+  export GOFLAGS=-mod=mod GOPROXY=off GOSUMDB=off GOTOOLCHAIN=local
+  cp /repo/go.sum "$ROOT/mc/go.sum" 2>/dev/null
+else
+  BIN=$(mktemp -d)
+  trap 'rm -rf "$BIN"' EXIT
+  sed "s#=> /repo#=> $REPO#" "$ROOT/mc/go.mod" > "$BIN/go.mod"
+  cp "$REPO/go.sum" "$BIN/go.sum"
+  export GOFLAGS="-mod=mod -modfile=$BIN/go.mod" GOPROXY=off GOSUMDB=off GOTOOLCHAIN=local
+fi
+if ! (cd "$ROOT/mc" && go build -o "$BIN/spdxmc" ./cmd/spdxmc) >"$BIN/build.log" 2>&1; then
+  echo "run_check: the explorer does not build against $REPO (infrastructure failure, not a verdict):" >&2
+  cat "$BIN/build.log" >&2
   exit 2
 fi
-exec "$ROOT/bin/spdxmc" check "$1" "${2:-quick}"
+"$BIN/spdxmc" check "$1" "${2:-quick}"
